@@ -206,6 +206,10 @@ class Inliner:
                     r = a * b
                     if r > m:
                         return ('overflow', op, e[2], e[3])
+                elif op == 'Rem' and b != 0:
+                    r = a % b
+                elif op == 'Div' and b != 0:
+                    r = a // b
                 elif op in ('Shl', 'ShlUnchecked'):
                     r = (a << b) & m
                 elif op in ('Shr', 'ShrUnchecked'):
